@@ -640,3 +640,7 @@ Proof.
   intros He. unfold gsde_std. cbn [pow]. rewrite Rmult_1_r. apply sqrt_sqrt.
   pose proof (gsde_variance_nonneg x c). lra.
 Qed.
+
+(* used by the correspondence goals: the gSDE squash correction evaluated at the inverted action *)
+Lemma bijector_correction_artanh eps a : -1 < a < 1 -> bijector_correction eps (artanh a) = squash_correction eps a.
+Proof. intros H. unfold bijector_correction, squash_correction. rewrite tanh_artanh by exact H. reflexivity. Qed.
